@@ -76,6 +76,17 @@ func c29EdGen(r *vhRng) string {
 	msg := r.Bytes(lens[r.Intn(len(lens))])
 	sig, _ := kp.Sign(msg)
 	pk := kp.Public().Encode()
+	if r.Chance(1, 6) {
+		// torsion-only cases: A and R canonical small-order points, s = 0.  s*B = R + h*A holds
+		// for about one case in eight (R must be -h*A), so both verdicts occur; half of the cases
+		// use the all-zero key (a point of order 4), which a shortcut for "unset" keys would refuse
+		pk = vhUnhex(c29SmallOrder[r.Intn(8)])
+		if r.Bool() {
+			pk = make([]byte, 32)
+		}
+		sig = append(vhUnhex(c29SmallOrder[r.Intn(8)]), make([]byte, 32)...)
+		return "ed " + vhHex(pk) + " " + vhHex(msg) + " " + vhHex(sig)
+	}
 	switch r.Intn(12) {
 	case 0, 1, 2: // honest
 	case 3: // flipped bit in signature
